@@ -211,6 +211,33 @@ func (q *Query) addNumVal(val string) {
 	elem.lastCond = ILLEGAL
 }
 
+// unquoteDouble returns the value of a double-quoted literal s (quotes
+// included).  The escapes are those of a Go string literal; a line feed may
+// also be written as is.
+func unquoteDouble(s string) string {
+	v, err := strconv.Unquote(strings.Replace(s, "\n", `\n`, -1))
+	if err != nil {
+		panic(fmt.Sprintf("%s: %s", invalidStringError, s))
+	}
+	return v
+}
+
+// unquoteSingle returns the value of the text s written between single
+// quotes: \' stands for a quote and \\ for a backslash.
+func unquoteSingle(s string) string {
+	if !strings.Contains(s, `\`) {
+		return s
+	}
+	b := make([]byte, 0, len(s))
+	for i := 0; i < len(s); i++ {
+		if s[i] == '\\' && i+1 < len(s) && (s[i+1] == '\'' || s[i+1] == '\\') {
+			i++
+		}
+		b = append(b, s[i])
+	}
+	return string(b)
+}
+
 func (q *Query) startList() {
 	elem := q.lastCallStackElem()
 	q.validateArgField(elem) // case 5
